@@ -15,5 +15,3 @@ for p in "$@"; do
   echo "== $p exit=$rc"
   echo "$out" | grep -E "^VIOLATION|^  signature|^TROUBLE|BUILD-ERROR|quick:|thorough:" | cut -c1-220 | head -12
 done
-# evidence files were overwritten by runs against the scratch tree: restore the committed ones
-git -C /verif checkout -- evidence 2>/dev/null
